@@ -35,7 +35,7 @@ func (fc *FnCtx) externCall(st *State, instr ssa.CallInstruction, callee *ssa.Fu
 		return fc.errorsJoin(st, instr, args, resT)
 	case "errors.As":
 		return fc.errorsAs(st, instr, args, resT)
-	case "fmt.Sprintf", "fmt.Sprint", "strconv.Itoa", "net.JoinHostPort":
+	case "fmt.Sprintf", "fmt.Sprint":
 		// pure string construction: arbitrary string, no effects
 		return vc.havoc(resT, "str", st.alloc)
 	case "(*sync.Once).Do":
